@@ -2,7 +2,7 @@
 #define HX_HAS_ROTATION 0
 #include "generic.h"
 namespace hx {
-using B_b01 = manif::Bundle<double, manif::SO2>;
+using B_b01 = manif::Bundle<HX_SC, manif::SO2>;
 template <> struct Extra<B_b01> {
   static bool run(const Req& r, Resp& R) {
     // element<i>() views alias exactly the i-th element's coefficients
